@@ -105,6 +105,7 @@ StepMap(e) ==
   /\ Check(e.lenient = (IF n > 0 THEN PreImage(w[lo], loc) ELSE PreImage(w[before], loc)),
            "lenient_resolver_earlier_or_shifted_forward_by_gap")
   /\ Check(e.back_ok, "instant_rendered_in_zone_maps_back_to_itself")
+  /\ (Has(e, "kept_same") => Check(e.kept_same, "a_mapping_kept_while_others_are_made_still_reports_the_same"))
   \* the stock resolvers combined: what each promises for two matches, and for a gap
   /\ (Has(e, "resolved") =>
         LET want == IF n = 1 THEN PreImage(w[lo], loc)
